@@ -17,7 +17,8 @@ import (
 // LongFieldName needs a two-byte length varint in the fields section.
 var LongFieldName = "long-field-name-" + strings.Repeat("n", 120)
 
-var FieldVocab = []string{"_id", "a", "b", "title", "zz", "Body", "A0", "", LongFieldName}
+// "a,b" contains a separator: the field lists [_id a,b] and [_id a b] read the same when joined with ",".
+var FieldVocab = []string{"_id", "a", "b", "title", "zz", "Body", "A0", "", LongFieldName, "a,b"}
 
 // UnknownField is never part of a batch.
 const UnknownField = "nope"
